@@ -37,7 +37,7 @@ func init() {
 		ID:    "C07.bits",
 		Props: []string{"C07"},
 		Doc:   "TWKB header bit layout, writer vs reader by composition: for every kind 1..7 and XY precision -8..7 the type/precision byte written by writeTypeAndPrecision is decoded by parseTypeAndPrecision to the same kind and precision; for every (hasZ, hasM, precZ 0..7, precM 0..7) the extended-precision byte written is decoded to the same flags and precisions",
-		Floor: 2,
+		Floor: 3,
 		Run:   runC07Bits,
 	})
 }
@@ -331,7 +331,63 @@ func runC06Names(c *Ctx) {
 	}
 }
 
+func runC07MergeBBox(c *Ctx) {
+	f := c.P.Func("geom.(*twkbWriter).mergeBBox")
+	if f == nil {
+		c.Errorf("anchor geom.(*twkbWriter).mergeBBox does not resolve")
+		return
+	}
+	problem, undec := "", ""
+	models := 0
+	keys := []string{"$0.bboxMin[0]", "$0.bboxMax[0]", "$1.bboxMin[0]", "$1.bboxMax[0]", "$0.bboxMin[1]", "$0.bboxMax[1]", "$1.bboxMin[1]", "$1.bboxMax[1]"}
+	k4enumerate(keys, []float64{-1, 0, 2}, []string{"$0.bboxValid", "$1.bboxValid"}, func(m *Model) bool {
+		for d := 0; d < 2; d++ {
+			for _, p := range []string{"$0", "$1"} {
+				if m.Num[fmt.Sprintf("%s.bboxMin[%d]", p, d)] > m.Num[fmt.Sprintf("%s.bboxMax[%d]", p, d)] {
+					return true
+				}
+			}
+		}
+		models++
+		m.Num["$0.dimensions"] = 2
+		m.Missing = map[string]bool{}
+		it := &k4interp{p: c.P, m: m, mem: map[string]k4val{}}
+		if _, err := it.call(f, []k4val{{kind: 3, s: "$0"}, {kind: 3, s: "$1"}}, nil); err != nil {
+			undec = fmt.Sprintf("%v %s", err, missingList(m))
+			return false
+		}
+		wv, ov := m.Bool["$0.bboxValid"], m.Bool["$1.bboxValid"]
+		for d := 0; d < 2; d++ {
+			for _, mm := range []string{"bboxMin", "bboxMax"} {
+				k := fmt.Sprintf("$0.%s[%d]", mm, d)
+				got, _ := it.lookup(k, nil0)
+				w, o := m.Num[k], m.Num[fmt.Sprintf("$1.%s[%d]", mm, d)]
+				want := w
+				switch {
+				case !ov:
+				case !wv:
+					want = o
+				case mm == "bboxMin" && o < w, mm == "bboxMax" && o > w:
+					want = o
+				}
+				if got.f != want {
+					problem = fmt.Sprintf("for %s the merged %s[%d] is %v, expected %v (an invalid/empty child box must not contribute; a valid one extends the parent's box)", modelString(m), mm, d, got.f, want)
+					return false
+				}
+			}
+		}
+		gv, _ := it.lookup("$0.bboxValid", boolT)
+		if gv.b != (wv || ov) {
+			problem = fmt.Sprintf("for %s the merged box validity is %v, expected %v", modelString(m), gv.b, wv || ov)
+			return false
+		}
+		return true
+	})
+	reportK4(c, f, "bounding-box merge", undec, problem, fmt.Sprintf("invalid child boxes are ignored, valid ones extend (or seed) the parent's box; %d models", models))
+}
+
 func runC07Bits(c *Ctx) {
+	runC07MergeBBox(c)
 	w := c.P.Func("geom.(*twkbWriter).writeTypeAndPrecision")
 	r := c.P.Func("geom.(*twkbParser).parseTypeAndPrecision")
 	we := c.P.Func("geom.(*twkbWriter).writeExtendedPrecision")
